@@ -303,7 +303,7 @@ func (c *fakeCloud) DescribeNetworkInterface(ctx context.Context, vpcID string, 
 //          5 reconcile-podeni name nf (kind outcome)* | 6 gc-records | 7 gc-interfaces | 8 advance secs |
 //          9 foreign-interface tags ageSecs status | 10 api-fault what | 11 hold-next-attach | 12 release-attach
 // kind of a pod: 0 elastic, 1 fixed TTL, 2 fixed Never, 3 two interfaces Never + TTL, 4 two interfaces TTL + Never, 5 not using per-pod interfaces
-// output per step (4 5 6 7 12): 88 step name err npods (name uid node exited kind)* nrec (name phase uid node deleting finalizer
+// output per step (4 5 6 7 12): 88 step name err now(s) npods (name uid node exited kind)* nrec (name phase uid node deleting finalizer
 //          nalloc (eni ip fixed strategy ttl)* lastSeenAge)* ncalls (len call..)* npre (eni inuse member tags age)* ncloud (..)*   (pre = the cloud when the step began)
 
 func b2i(b bool) int {
@@ -418,6 +418,7 @@ func evalHistory(in []*big.Int) ([]*big.Int, []*big.Int) {
 		ec := podeni.VerifNewReconcilePodENI(cl, cloud, trunk, false)
 		ctx := context.Background()
 		kinds := map[int]int{} // pod name -> kind, as created last
+		t0 := time.Now()
 		var inflight chan error
 		inflightName := 0
 
@@ -452,7 +453,7 @@ func evalHistory(in []*big.Int) ([]*big.Int, []*big.Int) {
 				e = 1
 			}
 			apiSeen = apiHits
-			out.I(88, step, name, e)
+			out.I(88, step, name, e, int(time.Since(t0)/time.Second))
 			pl := &corev1.PodList{}
 			_ = cl.List(ctx, pl)
 			sort.Slice(pl.Items, func(i, j int) bool { return num(pl.Items[i].Name, "p") < num(pl.Items[j].Name, "p") })
@@ -726,6 +727,13 @@ func gen(r *hx.Rand) [][]*big.Int {
 					drive(p)
 				}
 			case x < 30:
+				if alive[p] && kind[p] >= 1 && kind[p] <= 4 && r.Chance(1, 3) {
+					// the collector sees the pod some time after it last stamped the record, the pod goes away soon afterwards,
+					// the collector passes again: the TTL counts from the pass that saw the pod
+					recs = append(recs, []int{8, []int{70, 100, 200}[r.Intn(3)]}, []int{6}, []int{8, 20 + r.Intn(30)}, []int{3, p}, []int{4, p, 0}, []int{5, p, 0}, []int{5, p, 0}, []int{6})
+					alive[p] = false
+					break
+				}
 				if alive[p] {
 					if r.Chance(1, 2) {
 						recs = append(recs, []int{2, p})
